@@ -215,7 +215,7 @@ class Orient(Case):
     def run(self, inp):
         n = self.n
         H = herm(inp, "H", self.cplx, genuinely_complex=True, d=self.d)
-        G = herm(inp, "G", self.cplx, d=self.d)
+        G = herm(inp, "G", self.cplx, genuinely_complex=True, d=self.d)
         g, calls = _gibbs(inp, n, H, G, self.bath)
         dyn = g.compute(progress_type="silent")
         E = mpow(G @ G, n, inp)                   # F(-H/(2Tn))^(2n)  (= exp(-H/T) by the group law)
@@ -240,7 +240,7 @@ class Wiring(Case):
     def run(self, inp):
         n = self.n
         H = herm(inp, "H", genuinely_complex=True)
-        G = herm(inp, "G")
+        G = herm(inp, "G", genuinely_complex=True)
         g, calls = _gibbs(inp, n, H, G, self.bath)
         want = _scale(H, -1.0 / (2.0 * TEMPERATURE * n))
         obs = [Ob.holds("expm called for the two half steps", len(calls) == 2)]
@@ -415,7 +415,7 @@ class HermitianCoupled(Case):
 
     def run(self, inp):
         n, d = self.n, len(self.coupling)
-        G = herm(inp, "G", d=d)
+        G = herm(inp, "G", genuinely_complex=True, d=d)
         cs = [inp.real("c%d" % k) for k in range(n + 1)]
         diag = np.array(self.coupling, dtype=float)
         b = TIBaseBackend(d, 1.0e-14, G, lambda k: cs[k], (-diag, diag, np.zeros(d)), max_step=n)
@@ -554,7 +554,7 @@ class ZRotation(Case):
         n = self.n
         H = herm(inp, "H", genuinely_complex=True)
         K = herm(inp, "K", genuinely_complex=True)      # stands for R H R^+ (only G, G' enter the identity)
-        G = herm(inp, "G")
+        G = herm(inp, "G", genuinely_complex=True)
         t = inp.real("t")
         one = inp.one()
         if inp.mode == "real":
@@ -628,13 +628,13 @@ def _dagger(m):
 
 
 def cases(tier):
-    cs = [Orient(2), Orient(3), Orient(2, cplx=False), Orient(3, cplx=False), Wiring(2), Wiring(3), Repeat(3),
-          Orient(2, d=3), Orient(2, cplx=False, d=3), Normalised("generic"), Normalised("hermitian"), Coefficients(3), HermitianCoupled(2), HermitianCoupled(3), ZRotation(2), ZRotation(3),
+    cs = [Orient(2), Orient(3), Orient(4), Orient(2, cplx=False), Orient(3, cplx=False), Wiring(2), Wiring(3), Repeat(3),
+          Orient(2, d=3), Orient(2, cplx=False, d=3), Normalised("generic"), Normalised("hermitian"), Coefficients(3), HermitianCoupled(2), HermitianCoupled(3), HermitianCoupled(4), ZRotation(2), ZRotation(3), ZRotation(4),
           HermitianCoupled(2, (1, 0)), HermitianCoupled(3, (1, 0)), HermitianCoupled(2, (1, 0, -2)), ZRotation(2, (1, 0)),
           ZRotation(3, (1, 0)), UniqueLocal(3, False), UniqueLocal(3, True), Degenerate((1, 1, 0), 2), Degenerate((0.5, -0.5, 0.5), 3),
           Degenerate((1, 1, 0), 3)]
     if tier == "thorough":
-        cs += [Orient(4), Orient(5), Orient(4, cplx=False), Wiring(4), Repeat(4), Repeat(2), HermitianCoupled(4), ZRotation(4),
+        cs += [Orient(5), Orient(4, cplx=False), Wiring(4), Repeat(4), Repeat(2),
                Orient(3, d=3), Orient(3, cplx=False, d=3), Orient(4, cplx=False, d=3),
                HermitianCoupled(4, (1, 0)), HermitianCoupled(3, (1, 0, -2)), ZRotation(4, (1, 0)),
                UniqueLocal(4, False), UniqueLocal(4, True), Degenerate((0, 1, 1), 3), Degenerate((0.5, 0.5, -0.5, -0.5), 2),
